@@ -9,7 +9,7 @@ inductive AutoClear where | none | auto | manual | maxLength
   deriving Repr, DecidableEq, Inhabited
 
 inductive Proc where
-  | speller | selector | navigator | expressEditor | fluidEditor | other | punctuator | keyBinder | asciiComposer
+  | speller | selector | navigator | expressEditor | fluidEditor | other | punctuator | keyBinder | asciiComposer | recognizer
   deriving Repr, DecidableEq, Inhabited
 
 structure Env where
@@ -37,6 +37,10 @@ structure Env where
   asciiKeys : List (Int × AcStyle) := []
   /-- `ascii_composer/good_old_caps_lock` -/
   goodOldCapsLock : Bool := false
+  /-- `recognizer/patterns` as the std::map iterates them (sorted by name); empty: the recognizer is a no-op -/
+  recPatterns : List RecPattern := []
+  /-- `recognizer/use_space` -/
+  recUseSpace : Bool := false
   /-- ConcreteEngine::Compose as a function of (input, caret, old composition) -/
   recompose : Bytes → Nat → Comp → Comp := fun _ _ c => c
 
